@@ -18,6 +18,10 @@ type c16Prog struct {
 	A     int      `json:"a"`
 	B     int      `json:"b"`
 	N     int      `json:"n"` // bound = N mod (total+4)
+	// second stage (when Second): the windowed log merges again, with another bound, from replica C
+	Second bool `json:"second,omitempty"`
+	C      int  `json:"c,omitempty"`
+	N2     int  `json:"n2,omitempty"`
 }
 
 func genC16(t *rapid.T) c16Prog {
@@ -29,6 +33,9 @@ func genC16(t *rapid.T) c16Prog {
 		A:     rapid.IntRange(0, w.Replicas-1).Draw(t, "dst"),
 		B:     rapid.IntRange(0, w.Replicas-1).Draw(t, "src"),
 		N:     rapid.IntRange(0, 1<<16).Draw(t, "n"),
+		Second: rapid.IntRange(0, 2).Draw(t, "second") == 0,
+		C:      rapid.IntRange(0, w.Replicas-1).Draw(t, "src2"),
+		N2:     rapid.IntRange(0, 1<<16).Draw(t, "n2"),
 	}
 }
 
@@ -65,6 +72,11 @@ func runC16(tb ev.TB, p c16Prog) ev.Result {
 	}
 	if _, err := twin.Join(src.Log, -1); err != nil {
 		tb.Fatalf("unbounded merge failed: %v", err)
+	}
+	// a second twin goes through the same bounded merge and then does the unbounded form of the second one
+	twin2, err := world.NewLog(w.Store.API(), dst.Writer, sim.LogID, w.Order, w.IO, &ipfslog.LogOptions{Entries: dst.Log.GetEntries(), Heads: dst.Log.Heads().Slice(), Clock: entry.NewLamportClock(dst.Log.Clock.GetID(), dst.Log.Clock.GetTime())})
+	if err != nil {
+		tb.Fatalf("harness: twin: %v", err)
 	}
 
 	ret, err := dst.Log.Join(src.Log, bound) // a panic here is a violation (rapid reports it)
@@ -124,12 +136,66 @@ func runC16(tb ev.TB, p c16Prog) ev.Result {
 			tb.Fatalf("bound %d >= merged size %d must behave like the unbounded merge: %s", bound, total, d)
 		}
 	}
+	secondStage := false
+	if p.Second && n >= 2 {
+		c := p.C % n
+		if c == a {
+			c = (a + 1) % n
+		}
+		src2 := w.Reps[c]
+		everything := union.Clone()
+		everything.Union(src2.Model)
+		if !w.Reg.StrictTotalOn(w.Order, everything) {
+			// with ties two logs may legitimately keep different windows: the comparison with a twin needs a strict order
+			goto classify
+		}
+		if _, err := twin2.Join(src.Log, bound); err != nil {
+			tb.Fatalf("bounded merge on the twin failed: %v", err)
+		}
+		if d := takeSnap(twin2).diff(takeSnap(dst.Log)); d != "" {
+			tb.Fatalf("two logs in the same state made the same bounded merge and differ: %s", d)
+		}
+		if _, err := twin2.Join(src2.Log, -1); err != nil {
+			tb.Fatalf("unbounded merge into a windowed log failed: %v", err)
+		}
+		full2 := world.Hashes(twin2.Values())
+		total2 := len(full2)
+		cands2 := []int{0, 1, total2 - 1, total2, total2 + 1, total2 + 3, p.N2 % (total2 + 4), (p.N2 / 7) % (total2 + 4)}
+		bound2 := cands2[p.N2%len(cands2)]
+		if bound2 < 0 {
+			bound2 = 0
+		}
+		if _, err := dst.Log.Join(src2.Log, bound2); err != nil {
+			tb.Fatalf("second bounded merge (n=%d) returned error: %v", bound2, err)
+		}
+		want2 := bound2
+		if total2 < want2 {
+			want2 = total2
+		}
+		vals2 := world.Hashes(dst.Log.Values())
+		ents2 := entriesOf(dst.Log)
+		if len(vals2) != want2 || len(ents2) != want2 || dst.Log.Len() != want2 {
+			tb.Fatalf("second bounded merge n=%d (the unbounded merge linearises %d entries): Values has %d, entries %d, Len %d; want %d", bound2, total2, len(vals2), len(ents2), dst.Log.Len(), want2)
+		}
+		if exp := full2[total2-want2:]; !world.EqualStrings(vals2, exp) {
+			tb.Fatalf("second bounded merge n=%d: values are not the last %d of what the unbounded merge linearises:\n got  %v\n want %v", bound2, want2, world.Shorts(vals2), world.Shorts(exp))
+		}
+		wantHeads2 := w.Reg.ModelHeads(ents2)
+		if hs := world.SetOf(world.Hashes(dst.Log.Heads())); !hs.Equal(wantHeads2) {
+			tb.Fatalf("second bounded merge n=%d: heads %v, unreferenced among kept entries %v", bound2, world.Shorts(hs.Sorted()), world.Shorts(wantHeads2.Sorted()))
+		}
+		secondStage = bound < total
+	}
+classify:
 	fork := w.Reg.HasFork(union)
 	cutsFork := false
 	if bound < total && bound > 0 {
 		cutsFork = len(wantHeads) >= 2 || w.Reg.HasFork(ents)
 	}
 	cl := worldClasses(w)
+	if secondStage {
+		cl = append(cl, "second-bounded-merge-into-a-windowed-log")
+	}
 	switch {
 	case bound == 0:
 		cl = append(cl, "n=0")
@@ -145,6 +211,6 @@ func runC16(tb ev.TB, p c16Prog) ev.Result {
 
 func TestC16(t *testing.T) {
 	c := ev.Get("C16")
-	c.Rule = "a generated multi-replica program (as C01, no final exchange) builds the logs; two of its replicas and a bound n in [0,total+3] (biased to 0,1,total-1,total,total+1) are drawn; A.Join(B,n) is compared with the last min(n,total) entries of the reference sort of A's set ∪ B's set (exact when the ordering is strict-total there, 'nothing excluded is strictly newer' otherwise), heads with the unreferenced entries among the kept ones, and for n >= total with a twin replica that did the unbounded merge. Non-trivial = merged set has a fork and (n > total or the truncation keeps a forked/multi-headed suffix); distinct = distinct program."
+	c.Rule = "a generated multi-replica program (as C01, no final exchange) builds the logs; two of its replicas and a bound n in [0,total+3] (biased to 0,1,total-1,total,total+1) are drawn; A.Join(B,n) is compared with the last min(n,total) entries of the reference sort of A's set ∪ B's set (exact when the ordering is strict-total there, 'nothing excluded is strictly newer' otherwise), heads with the unreferenced entries among the kept ones, and for n >= total with a twin replica that did the unbounded merge. In a third of the cases the (now possibly windowed) log then makes a second bounded merge from another replica; it is compared with a twin that made the same first merge and the unbounded form of the second one. Non-trivial = merged set has a fork and (n > total or the truncation keeps a forked/multi-headed suffix); distinct = distinct program."
 	ev.Check(t, "C16", genC16, runC16)
 }
